@@ -141,17 +141,40 @@ def wf_reason(raw):
     return "other: not reachable / duplicate identifier"
 
 
+def corpus_histories():
+    """Minimised histories kept from earlier findings; they run before the random ones of every workspace-history check.
+    Targets are indices into the live entities sorted by number: -1 is the entity created last."""
+    def op(k, a=0, b=0, c=0):
+        return {"k": k, "a": a, "b": b, "c": c, "uid": None}
+    return [
+        # comments of a drillhole group, removed through the workspace and through the parent
+        [op("create_group", 0, 5), op("comment", 0, 1, 0), op("remove_ws", -1, 0, 0), op("reopen"), op("comment", 0, 2, 0),
+         op("remove_parent", -1, 0, 0), op("gc"), op("reopen"), op("comment", 0, 3, 0), op("comment", 0, 4, 0), op("reopen")],
+        # visual parameters of an object, detached and removed
+        [op("create_object", 0, 0, 1), op("visual", 0), op("remove_parent", -1, 0, 0), op("gc"), op("reopen"), op("visual", 0),
+         op("remove_ws", -1, 0, 0), op("reopen"), op("visual", 0), op("create_group", 0, 0), op("copy", 1, 1, 0), op("reopen")],
+        # comments of an object and of a group, a second comment, copy of the owner, removal of the owner
+        [op("create_group", 0, 0), op("create_object", 1, 2, 1), op("comment", 1, 1, 1), op("comment", 1, 2, 1), op("comment", 0, 3, 1),
+         op("copy", 1, 0, 0), op("reopen"), op("remove_ws", 1, 0, 0), op("gc"), op("reopen")],
+    ]
+
+
 def run_props(ctx: Ctx, want, weights=None, n_quick=60, n_thorough=1500, max_ops=(6, 22), pool=0, hook=None, post=None, shape=None):
     import uuid
     sessions, cases = [], []
     n = ctx.n(n_quick, n_thorough)
     pool_arg = pool
-    for i in range(n):
+    corpus = corpus_histories()
+    for i in range(n + len(corpus)):
         pool = pool_arg(ctx.rng) if callable(pool_arg) else pool_arg      # identifiers the caller passes explicitly (re-used)
         uid_pool = [uuid.UUID(int=1000 + j) for j in range(pool)] if pool else None
-        ops = wsh.gen_ops(ctx.rng, ctx.rng.randrange(*max_ops), weights=weights, pool_uids=pool)
-        if shape:
-            ops = shape(ctx.rng, ops)
+        if i < len(corpus):
+            ops, pool, uid_pool = corpus[i], 0, None
+            ctx.count("corpus-histories")
+        else:
+            ops = wsh.gen_ops(ctx.rng, ctx.rng.randrange(*max_ops), weights=weights, pool_uids=pool)
+            if shape:
+                ops = shape(ctx.rng, ops)
         s = run_history(ctx, i, ops, uid_pool=uid_pool, extra_hook=hook)
         case = {"ops": ops, "pool": pool}
         kinds = [e.split(" ")[0] for e in s.events]
